@@ -245,8 +245,38 @@ fn rel1(r: i64, pw: &str, reference: &str) -> &'static str {
     }
 }
 
+/// Relation of `pw` to the owner password.  Revisions 2-4: an owner password whose PDFDocEncoding form is empty means
+/// "there is no owner password" and Algorithm 3 (a) uses the user password in its place (lopdf since fix: c09ccb6).
+/// Whether a non-empty owner password without any encodable character is "empty" depends on the convention for such
+/// characters (dropped: lopdf; replaced: others).  As in rel1: the answer under lopdf's convention counts when it accepts
+/// the password or when the other convention agrees; otherwise "unsure" (never judged).
+fn rel_owner(r: i64, pw: &str, user: &str, owner: &str) -> &'static str {
+    if r > 4 || !canon4(owner, true).is_empty() {
+        return rel1(r, pw, owner);
+    }
+    if !pw.chars().all(safe6) || !user.chars().all(safe6) || !owner.chars().all(safe6) {
+        return "unsure";
+    }
+    let one = |drop: bool| -> &'static str {
+        let eff = if canon4(owner, drop).is_empty() { user } else { owner };
+        if pw == eff {
+            "same"
+        } else if canon4(pw, drop) == canon4(eff, drop) {
+            "equiv"
+        } else {
+            "diff"
+        }
+    };
+    let (a, b) = (one(true), one(false));
+    if a == b || a != "diff" {
+        a
+    } else {
+        "unsure"
+    }
+}
+
 fn rel(r: i64, pw: &str, user: &str, owner: &str) -> Value {
-    json!({"u": rel1(r, pw, user), "o": rel1(r, pw, owner)})
+    json!({"u": rel1(r, pw, user), "o": rel_owner(r, pw, user, owner)})
 }
 
 // ------------------------------------------------------------------------------------------------
